@@ -1,9 +1,11 @@
 import VibeProof.Model.TextCodec
 open VibeProof VibeProof.Proto VibeProof.Text VibeProof.TextCodec
 
-def decPairs : Sx → Option (List (Str × Str))
+/-- `(key null)` for a JSON null, `(key HEX)` for the text of any other value -/
+def decPairs : Sx → Option (List (Str × Option Str))
   | .list xs => xs.mapM (fun
-      | .list [k, v] => do pure (← decChars k, ← decChars v)
+      | .list [k, .atom "null"] => do pure (← decChars k, none)
+      | .list [k, v] => do pure (← decChars k, some (← decChars v))
       | _ => none)
   | _ => none
 
@@ -28,6 +30,7 @@ def handle : List Sx → Sx
       match Csv.importCsv tb cs with
       | .ok stmts => .list (.atom "ok" :: stmts.map sxChars)
       | .error .empty => .list [.atom "err", .atom "empty"]
+      | .error (.malformed _) => .list [.atom "err", .atom "malformed"]
       | .error (.columnCount n) => .list [.atom "err", .atom "count", sxNat n]
     | _, _ => .atom "bad-request"
   | [.atom "importjson", tbl, obj] =>
